@@ -253,7 +253,23 @@ func ruleL9(p *Prog, r *Report) {
 			onRoot := func(want string) func(ssa.Instruction) bool {
 				return func(y ssa.Instruction) bool {
 					cc, ok := y.(ssa.CallInstruction)
-					return ok && calleeName(cc) == want && callRecv(cc) != nil && isRootOf(callRecv(cc), recv)
+					if !ok {
+						return false
+					}
+					if calleeName(cc) == want && callRecv(cc) != nil && isRootOf(callRecv(cc), recv) {
+						return true
+					}
+					// a helper method of the same handle that evaluates the test on its own root on every path
+					if g := staticCallee(cc); g != nil && g.Pkg == p.RootSSA && recvName(g) == recvName(top) && len(g.Params) > 0 && len(g.Blocks) > 0 &&
+						len(cc.Common().Args) > 0 && sameValue(cc.Common().Args[0], recv) {
+						grecv := g.Params[0]
+						inner := func(z ssa.Instruction) bool {
+							c2, ok := z.(ssa.CallInstruction)
+							return ok && calleeName(c2) == want && callRecv(c2) != nil && isRootOf(callRecv(c2), grecv)
+						}
+						return successReturnAvoiding(g, nil, inner) == nil
+					}
+					return false
 				}
 			}
 			if m == "Set" || m == "Insert" || recvName(top) == "OrderedMap" {
